@@ -248,6 +248,26 @@ def main():
             chk.violation('compile-reject-without-line',
                           '`time at {}` rejected without a line-numbered message'.format(s),
                           {'script': 'time at ' + s, 'errors': parser.get_errors()})
+    # the same rule wherever else a pattern can be written: as a macro's value, as a later
+    # alternative of an or-list, through a macro inside an or-list
+    n_pos = 0
+    for s in rng.sample(wf, 1500 if not chk.thorough else len(wf)):
+        spec = spec_bits(s)
+        for form in ('define t {}\ntime at t wait', 'time at 8:00 or {} wait',
+                     'define t {}\ntime at 9:00 or t wait', 'define t {}\ndefine u t\ntime at u'):
+            text = form.format(s)
+            got, parser = compile_accepts(Parser, text)
+            chk.count()
+            n_pos += 1
+            if isinstance(got, str):
+                chk.violation('compile-raises', 'compiling `{}` raises'.format(text), {'script': text, 'impl': got})
+            elif got != (spec is not None):
+                chk.violation('compile-accepts-invalid' if got else 'compile-rejects-valid',
+                              '`{}` is {} by the compiler although the pattern {} {}'.format(
+                                  text.replace('\n', ' / '), 'accepted' if got else 'rejected', s,
+                                  'can match no time of day' if spec is None else 'is valid'),
+                              {'script': text, 'errors': parser.get_errors()})
+    stats['compiled_in_other_positions'] = n_pos
     stats['compiled'] = len(comp)
     stats['compiled_accepted'] = n_comp_acc
     # `or` lists at compile time, including non-pattern operands
